@@ -217,7 +217,7 @@ def _fuzz(name, srcs, prop, secs, jobs, agg, max_len=2048, extra=None, timeout_s
 def check_C06(tier):
     t0 = time.time()
     b = compile_bin('gridcheck', ['checks/gridcheck.cc'], 'fast', ref=True)
-    shots = '60' if tier == 'thorough' else '6'
+    shots = '80' if tier == 'thorough' else '20'
     reps = run_native(b, ['--seed', str(seed()), '--shots', shots, '--known', known_tsv('C06')], NCPU, 'C06')
     agg = Agg('C06')
     agg.add(reps)
@@ -234,7 +234,7 @@ def check_C06(tier):
 def check_C09(tier):
     t0 = time.time()
     b = compile_bin('proto', ['checks/proto.cc'], 'fast', libs=['-lrapidcheck', '-rdynamic'])
-    maxlen, rc_cases = ('5', '40000') if tier == 'thorough' else ('4', '5000')
+    maxlen, rc_cases = ('5', '60000') if tier == 'thorough' else ('4', '25000')
     reps = run_native(b, ['--seed', str(seed()), '--maxlen', maxlen, '--rc_cases', rc_cases, '--known', known_tsv('C09')], NCPU, 'C09')
     agg = Agg('C09')
     agg.add(reps)
